@@ -47,6 +47,45 @@ impl Oracle for Identity {
         // what was injected into V in this step?
         let inj: Vec<&Injection> = w.step_injections().filter(|j| j.to_node == 0).collect();
         let from_attacker_only = !inj.is_empty() && inj.iter().all(|j| w.is_attacker_addr(&j.from_addr));
+        // steps in which V only processed a forged handshake presented from an honest peer's address
+        let spoofed_only = !inj.is_empty() && inj.iter().all(|j| j.manipulation.as_deref() == Some("forged-handshake-spoofed"));
+        if spoofed_only {
+            self.class("forged-handshake-from-the-honest-peer's-own-address".into());
+            let from = inj[0].from_addr;
+            if w.prev_snaps[0].challenges.iter().any(|(a, _)| a.socket_addr == from) {
+                self.nontrivial = true;
+                self.class("forged-handshake-from-the-honest-peer's-own-address/challenge-outstanding".into());
+                if w.prev_snaps[0].sessions.iter().any(|s| s.addr.socket_addr == from) {
+                    self.class("forged-handshake-from-the-honest-peer's-own-address/challenge-outstanding-and-session-live".into());
+                }
+            }
+            for s in &w.snaps[0].sessions {
+                if s.addr.socket_addr != from {
+                    continue;
+                }
+                let before = w.prev_snaps[0].sessions.iter().find(|p| p.addr == s.addr);
+                if before.map(|b| b.keys != s.keys).unwrap_or(true) {
+                    return Some((
+                        "identity/session-keyed-by-forged-handshake-from-spoofed-source".into(),
+                        format!("V holds a new/re-keyed session for honest node {} at {} after a handshake that an adversary without that node's key presented from its address (op {op:?})", s.addr.node_id, s.addr.socket_addr),
+                    ));
+                }
+            }
+            for e in w.events[self.seen_events..].iter().filter(|e| e.node == 0) {
+                let hit = match &e.out {
+                    HandlerOut::Request(a, _) | HandlerOut::Response(a, _) => a.socket_addr == from,
+                    HandlerOut::Established(_, s, _) => *s == from,
+                    HandlerOut::UnverifiableEnr { socket, .. } => *socket == from,
+                    _ => false,
+                };
+                if hit {
+                    return Some((
+                        "identity/effect-attributed-after-forged-handshake-from-spoofed-source".into(),
+                        format!("V reported {:?} for the honest node at {from} in a step that only processed a handshake forged by an adversary without that node's key (op {op:?})", std::mem::discriminant(&e.out)),
+                    ));
+                }
+            }
+        }
         let inj_kind = inj.first().and_then(|j| {
             hv::packet_decode(&ids::node_id(&w.nodes[0].id), Default::default(), &j.bytes).ok().map(|(p, _)| match p.kind {
                 PacketKind::Message { .. } => 0u8,
@@ -55,14 +94,16 @@ impl Oracle for Identity {
             })
         });
         // statistics / non-triviality
-        if let Op::ForgedHandshake { x, z, signer, eph, rec, .. } = op {
+        if let Op::ForgedHandshake { x, z, signer, eph, rec, spoof, .. } = op {
             let xid = w.xid(x);
-            let outstanding = w.prev_snaps[0].challenges.iter().any(|(a, _)| a.node_id.raw() == xid && a.socket_addr == attacker_addr(*z));
+            let za = if *spoof { w.xnode(x).map(|j| w.nodes[j].addr).unwrap_or(attacker_addr(*z)) } else { attacker_addr(*z) };
+            let outstanding = w.prev_snaps[0].challenges.iter().any(|(a, _)| a.node_id.raw() == xid && a.socket_addr == za);
             let verifying = matches!((signer, rec), (Signer::Adv(j), AttachedRecord::Own { key, .. }) if j % 3 == key % 3) && *eph == EphKey::Valid;
             if outstanding && verifying {
                 self.nontrivial = true;
             }
             let know = match (w.xnode(x), w.cfg.wru_know.first()) {
+                (None, _) if matches!(x, XSel::Ed(_)) => "ed25519-id",
                 (None, _) => "random-id",
                 (Some(_), Some(Know::Nothing)) => "peer-unknown-to-V",
                 (Some(_), Some(Know::Older)) => "peer-known-older-seq",
@@ -157,10 +198,13 @@ impl Oracle for Identity {
         }
         // V encrypts towards an attacker address under a key the attacker can derive
         for d in &w.log[self.seen_log..] {
-            if d.from_node == Some(0) && w.is_attacker_addr(&d.to_addr) && is_foreign(w, &d.to_id.raw()) {
+            if d.from_node == Some(0) && is_foreign(w, &d.to_id.raw()) && (w.is_attacker_addr(&d.to_addr) || w.attacker.derived.iter().any(|(xid, z, _, _)| *z == 255 && *xid == d.to_id.raw())) {
                 if let Some((p, aad)) = &d.decoded {
                     if !matches!(p.kind, PacketKind::WhoAreYou { .. }) {
-                        for (_, _, ik, rk) in &w.attacker.derived {
+                        for (xid, _, ik, rk) in &w.attacker.derived {
+                            if !w.is_attacker_addr(&d.to_addr) && *xid != d.to_id.raw() {
+                                continue;
+                            }
                             for k in [ik, rk] {
                                 if hv::decrypt_message(k, p.message_nonce, &p.message, aad).is_ok() {
                                     return Some((
@@ -225,8 +269,10 @@ impl Property for C01 {
                 (Just(cfg), wire_gen::ops_strategy(np, wire_gen::Mix::Identity, n))
             })
             .prop_map(|(mut cfg, ops)| {
-                // V answers who-are-you queries immediately in this property (the attacker needs the challenge)
-                cfg.wru_mode[0] = AppMode::Immediate;
+                // V answers who-are-you queries immediately in most cases (the attacker needs the
+                // challenge); in a quarter of them its application answers late (op AnswerWru), which is
+                // the only way a challenge can be outstanding while a session with that peer is live
+                cfg.wru_mode[0] = if cfg.retries == 3 { AppMode::Manual } else { AppMode::Immediate };
                 // in a third of the cases peer 1's application answers record requests with a foreign record
                 if cfg.seqs.first().map(|s| s % 3 == 0).unwrap_or(false) {
                     cfg.foreign_enr_answer = vec![1];
